@@ -30,7 +30,7 @@ import elementpath.aliases as ta
 
 from elementpath.exceptions import ElementPathError
 from elementpath.tdop import MultiLabel
-from elementpath.helpers import Patterns, is_xml_codepoint, node_position
+from elementpath.helpers import Patterns, is_xml_codepoint, node_position, split_function_test
 from elementpath.namespaces import get_expanded_name, split_expanded_name, \
     XPATH_FUNCTIONS_NAMESPACE
 from elementpath.datatypes import NumericProxy, QName, Date, DateTime, Time, AnyURI
@@ -129,7 +129,10 @@ class _InlineFunction(XPathFunction):
             function_test = sequence_type
             if function_test[:-1] == 'function(*)':
                 function_test = function_test[:-1]  # function(*)?, function(*)*, function(*)+
-            if not v.match_function_test(function_test, as_argument=True):
+            # function coercion (XPath 3.1, 3.1.5.2): a function item of the required arity
+            # is accepted, whatever its declared signature
+            signature = split_function_test(function_test)
+            if signature != ['*'] and v.arity != len(signature) - 1:
                 msg = "argument {!r}: {} does not match sequence type {}"
                 raise self.error('XPTY0004', msg.format(varname, v, sequence_type))
 
